@@ -188,4 +188,164 @@ theorem process_core {cop : CPage → CPage → CPage} {ptl ptr : Bool} {o : CBi
   have := h5.1.final hf h5.2.1 h5.2.2
   exact ⟨this.2.1, this.2.2.1, this.2.2.2.1, this.2.2.2.2.1, this.2.2.2.2.2⟩
 
+/-! ### from the merged view back to the representation invariant -/
+
+theorem cview_keys (pm : PMap) (p : List CPage) : (cview pm p).map (·.1) = pm.map (·.1) := by
+  simp [cview, List.map_map, Function.comp_def]
+
+theorem cview_ok {pm : PMap} {pages : List CPage} (hlt : ∀ e ∈ pm, e.2 < pages.length)
+    (hok : ∀ p ∈ pages, CPageOk p) : ∀ kp ∈ cview pm pages, CPageOk kp.2 := by
+  intro kp hkp
+  simp only [cview, List.mem_map] at hkp
+  obtain ⟨e, he, rfl⟩ := hkp
+  exact hok _ (mem_getD pages e.2 CPage.zero (hlt e he))
+
+theorem process_finish {cop op} (hr : PageOpRefines cop op) (ptl ptr : Bool) (va vb : CView)
+    (hsa : (va.map (·.1)).Pairwise (· < ·)) (hsb : (vb.map (·.1)).Pairwise (· < ·))
+    (hoa : ∀ kp ∈ va, CPageOk kp.2) (hob : ∀ kp ∈ vb, CPageOk kp.2)
+    (pm : PMap) (pages : List CPage) (count : Nat) (h1 : pm.length = count) (h2 : pages.length = count)
+    (hv : cview pm pages = cmerge cop ptl ptr va vb) (hnd : (pm.map (·.2)).Nodup)
+    (hlt : ∀ e ∈ pm, e.2 < count) : CInvS pm pages := by
+  refine ⟨by omega, ?_, hnd, fun e he => by rw [h2]; exact hlt e he, ?_⟩
+  · rw [← cview_keys pm pages, hv]
+    exact cmerge_sorted cop ptl ptr va vb hsa hsb
+  · intro p hp
+    obtain ⟨k, hk, rfl⟩ := List.getElem_of_mem hp
+    have hperm := nodup_perm_range count (pm.map (·.2)) hnd
+      (fun i hi => by
+        simp only [List.mem_map] at hi
+        obtain ⟨e, he, rfl⟩ := hi
+        exact hlt e he) (by simp [h1])
+    have hmem : k ∈ pm.map (·.2) := hperm.mem_iff.2 (by simp; omega)
+    simp only [List.mem_map] at hmem
+    obtain ⟨e, he, hek⟩ := hmem
+    have : (e.1, pages.getD e.2 CPage.zero) ∈ cview pm pages := by
+      simp only [cview, List.mem_map]; exact ⟨e, he, rfl⟩
+    rw [hv] at this
+    have := cmerge_ok hr ptl ptr va vb hoa hob _ this
+    simp only at this
+    rwa [hek, getD_eq_getElem pages k CPage.zero hk] at this
+
+theorem cview_ext (X Y : PMap) (p q : List CPage) (hlen : X.length = Y.length)
+    (h : ∀ i, i < X.length → (X.getD i (0, 0)).1 = (Y.getD i (0, 0)).1 ∧
+      p.getD (X.getD i (0, 0)).2 CPage.zero = q.getD (Y.getD i (0, 0)).2 CPage.zero) :
+    cview X p = cview Y q := by
+  apply List.ext_getElem (by simp [cview, hlen])
+  intro i h1 h2
+  simp only [cview, List.length_map] at h1 h2
+  have := h i h1
+  rw [getD_eq_getElem X i _ h1, getD_eq_getElem Y i _ h2] at this
+  simp only [cview, List.getElem_map]
+  rw [this.1, this.2]
+
+theorem getD_take {α : Type} (l : List α) (w i : Nat) (d : α) (h : i < w) :
+    (l.take w).getD i d = l.getD i d := by
+  simp [List.getD_eq_getElem?_getD, List.getElem?_take, h]
+
+/-- **`BitSet::process` on the concrete layout**: for any page operator, pages created in any
+order on either side, the result's map read through its pages is the page-wise merge of the two
+input views, the structural invariant is re-established (map sorted, indices a bijection onto
+`pages`, every page well formed) and `length` is recomputed over the pages vector. -/
+theorem CBitSet.process_spec {cop op} (hr : PageOpRefines cop op) (s o : CBitSet) (hs : CInv s)
+    (ho : CInv o) (hsz : s.pages.length < USIZE_MAX) :
+    CInvS (s.process cop o).pageMap (s.process cop o).pages ∧
+    cview (s.process cop o).pageMap (s.process cop o).pages =
+      cmerge cop (cPassthrough cop).1 (cPassthrough cop).2 (cview s.pageMap s.pages)
+        (cview o.pageMap o.pages) ∧
+    (s.process cop o).len = cSumLens (s.process cop o).pages := by
+  generalize hpt : cPassthrough cop = pt
+  obtain ⟨ptl, ptr⟩ := pt
+  have hsa : ((cview s.pageMap s.pages).map (·.1)).Pairwise (· < ·) := by rw [cview_keys]; exact hs.sorted
+  have hsb : ((cview o.pageMap o.pages).map (·.1)).Pairwise (· < ·) := by rw [cview_keys]; exact ho.sorted
+  have hoa := cview_ok hs.idxLt hs.pagesOk
+  have hob := cview_ok ho.idxLt ho.pagesOk
+  have h1 := step1_spec ptl ptr o.pageMap s.pages.length o.pages.length ho.lenEq
+    (s.pages.length + o.pages.length) s.pageMap 0 0 0 0 (by omega) hs.lenEq (Nat.le_refl 0)
+  simp only [List.drop_zero, List.take_zero, List.nil_append, Nat.zero_add] at h1
+  obtain ⟨h1len, h1cnt, h1t, h1f⟩ := h1
+  rw [estCount_eq_length cop ptl ptr s.pageMap o.pageMap s.pages o.pages] at h1cnt
+  unfold CBitSet.process
+  simp only [hpt]
+  generalize hr1 : processStep1 ptl ptr o.pageMap s.pages.length o.pages.length s.pageMap 0 0 0 0 = r1 at *
+  generalize hcount : r1.count + (if ptl = true then s.pages.length - r1.idxA else 0) +
+    (if ptr = true then o.pages.length - r1.idxB else 0) = count at *
+  cases ptl with
+  | true =>
+    have hpm1 : r1.pm = s.pageMap := h1t rfl
+    simp only [Bool.not_true, Bool.false_eq_true, if_false, if_true, hpm1]
+    have hf : S3Fix o s.pageMap :=
+      ⟨hs.sorted, ho.sorted, hs.idxNodup, fun e he => by rw [hs.lenEq]; exact hs.idxLt e he⟩
+    have hge : s.pageMap.length ≤ count := by
+      rw [h1cnt]
+      have := cmerge_length_ge cop true ptr (cview s.pageMap s.pages) (cview o.pageMap o.pages) hsa hsb
+        (Or.inl rfl)
+      simpa [cview] using this
+    have hcv : cview s.pageMap (resizeList s.pages count CPage.zero) = cview s.pageMap s.pages :=
+      cview_congr _ _ _ (fun e he => getD_resizeList _ _ _ _ (by
+        have := hs.idxLt e he; have := hs.lenEq; omega))
+    have hcore := process_core (cop := cop) (ptl := true) (ptr := ptr) hf
+      (resizeList s.pageMap count (0, 0)) (resizeList s.pages count CPage.zero) count o.pages.length
+      (length_resizeList _ _ _) (length_resizeList _ _ _)
+      (by rw [take_resizeList _ _ _ _ hge (Nat.le_refl _), List.take_length])
+      ho.lenEq (by rw [hcv]; exact h1cnt) (fun h => by simp at h)
+    simp only [if_true, hs.lenEq] at hcore
+    obtain ⟨c1, c2, c3, c4, c5⟩ := hcore
+    rw [hcv] at c3
+    rw [resizeList_self _ _ _ c1, resizeList_self _ _ _ c2]
+    exact ⟨process_finish hr true ptr _ _ hsa hsb hoa hob _ _ count c1 c2 c3 c4 c5, c3, trivial⟩
+  | false =>
+    obtain ⟨h1take, h1w⟩ := h1f rfl
+    simp only [Bool.not_false, if_true, Bool.false_eq_true, if_false]
+    have hKsub := keptLeft_sublist s.pageMap o.pageMap
+    have hwle : r1.writeIdx ≤ r1.pm.length := by
+      rw [h1len, h1w, ← hs.lenEq]; exact hKsub.length_le
+    have hcs := compact_spec r1.pm s.pages r1.writeIdx hwle (by rw [h1len]; exact hsz)
+      (by rw [h1take]; exact (hKsub.map _).nodup hs.idxNodup)
+      (by rw [h1take]; intro e he; exact hs.idxLt e (hKsub.subset he))
+    simp only at hcs
+    generalize hcmp : compact r1.pm s.pages r1.writeIdx = c at *
+    obtain ⟨hc1, hc2, hc3, hc4, hc5, hc6⟩ := hcs
+    have hLlen : (c.2.take r1.writeIdx).length = r1.writeIdx := by
+      rw [List.length_take, hc2]; omega
+    -- the kept entries after compaction denote the same pages
+    have hKv : cview (c.2.take r1.writeIdx) c.1 = cview (keptLeft s.pageMap o.pageMap) s.pages := by
+      rw [← h1take]
+      apply cview_ext _ _ _ _ (by rw [hLlen, List.length_take]; omega)
+      intro i hi
+      rw [hLlen] at hi
+      rw [getD_take _ _ _ _ hi, getD_take _ _ _ _ hi]
+      exact hc3 i hi
+    have hKkeys : (c.2.take r1.writeIdx).map (·.1) = (keptLeft s.pageMap o.pageMap).map (·.1) := by
+      rw [← cview_keys _ c.1, hKv, cview_keys]
+    have hf : S3Fix o (c.2.take r1.writeIdx) :=
+      ⟨by rw [hKkeys]; exact List.Pairwise.sublist (hKsub.map _) hs.sorted, ho.sorted, hc4,
+        fun e he => by rw [hLlen]; exact hc5 e he⟩
+    have hwc : r1.writeIdx ≤ count := by
+      rw [h1w, h1cnt, ← estCount_eq_length cop false ptr s.pageMap o.pageMap s.pages o.pages]
+      exact keptLeft_length_le ptr _ _
+    have hcv : cview (c.2.take r1.writeIdx) (resizeList c.1 count CPage.zero) =
+        cview (c.2.take r1.writeIdx) c.1 :=
+      cview_congr _ _ _ (fun e he => getD_resizeList _ _ _ _ (by have := hc5 e he; omega))
+    have hmerge : cmerge cop false ptr (cview (c.2.take r1.writeIdx) (resizeList c.1 count CPage.zero))
+        (cview o.pageMap o.pages) =
+        cmerge cop false ptr (cview s.pageMap s.pages) (cview o.pageMap o.pages) := by
+      rw [hcv, hKv, ← cmerge_kept cop ptr s.pageMap o.pageMap s.pages o.pages hs.sorted]
+    have hcore := process_core (cop := cop) (ptl := false) (ptr := ptr) hf
+      (resizeList c.2 count (0, 0)) (resizeList c.1 count CPage.zero) count o.pages.length
+      (length_resizeList _ _ _) (length_resizeList _ _ _)
+      (by rw [hLlen, take_resizeList _ _ _ _ hwc (by rw [hc2]; exact hwle)])
+      ho.lenEq (by rw [hmerge]; exact h1cnt)
+      (fun _ x hx => by
+        have : x.1 ∈ (keptLeft s.pageMap o.pageMap).map (·.1) := by
+          rw [← hKkeys]; exact List.mem_map_of_mem hx
+        simp only [List.mem_map] at this
+        obtain ⟨e, he, hex⟩ := this
+        obtain ⟨y, hy, hey⟩ := keptLeft_matched _ _ e he
+        exact ⟨y, hy, by omega⟩)
+    simp only [Bool.false_eq_true, if_false, hLlen] at hcore
+    obtain ⟨c1, c2, c3, c4, c5⟩ := hcore
+    rw [hmerge] at c3
+    rw [resizeList_self _ _ _ c1, resizeList_self _ _ _ c2]
+    exact ⟨process_finish hr false ptr _ _ hsa hsb hoa hob _ _ count c1 c2 c3 c4 c5, c3, trivial⟩
+
 end FontVerif.IntSet
